@@ -2,6 +2,8 @@
 //! brave/sta-rs crates built from /repo's working tree.
 mod ggm;
 mod srv;
+mod star;
+mod star2;
 mod util;
 
 use util::*;
@@ -21,6 +23,10 @@ fn main() {
     "ggm-export" => ggm::export(&a),
     "srv-replay" => srv::replay(&a),
     "srv-record" => srv::record(&a),
+    "recover-replay" => star::recover_replay(&a),
+    "star-record" => star2::record(&a),
+    "tamper-sweep" => star2::tamper_sweep(&a),
+    "adss-sizes" => star2::adss_sizes(&a),
     other => {
       eprintln!("unknown subcommand {other}");
       std::process::exit(2);
